@@ -143,6 +143,61 @@ def start_struct_rule(F, rep):
                 closure = y
                 break
         why = "player() is not called from a closure over the ports"
+        loop = None
+        if closure is None:
+            y = calls[0]
+            while id(y) in parents:
+                y = parents[id(y)]
+                if y.get("k") == "For":
+                    loop = y
+                    break
+        if loop is not None and loop["pat"].get("k") == "Bind":
+            # `for n in 0..NUM_PORTS { if let Some(p) = player(.., n ..)? { players.push(p) } }` (the result may pass through a let)
+            nname = loop["pat"].get("name")
+            rng = safety.const_range(F, loop["iter"])
+            a = calls[0]["args"]
+
+            def idx_ok(e):
+                e = strip(e)
+                if e.get("k") == "Index":
+                    return L.local_name(e["index"]) == nname or (strip(e["index"]).get("k") == "Cast" and L.local_name(strip(e["index"])["e"]) == nname)
+                if e.get("k") == "MethodCall" and e["method"] == "map":
+                    cl = strip(e["args"][0])
+                    return cl.get("k") == "Closure" and idx_ok(cl["body"])
+                return False
+            a0 = strip(a[0])
+            port_ok = a0.get("k") == "MethodCall" and a0["method"] == "unwrap" and "game::Port" in (a0.get("ty") or "") and nname in [x.get("name") for x in tir.walk(a0) if x.get("k") == "Path"]
+            arrays_ok = len(a) == 8 and all(idx_ok(a[i]) for i in (1, 3, 4, 5, 6, 7))
+            teams_ok = roles.get(L.local_name(a[2]) or "") == "is_teams"
+            tried = (parents.get(id(calls[0])) or {}).get("k") == "Try"
+            benv = tir.LetEnv(loop["body"])
+            pushes = [x for x in tir.walk(b["tir"]["value"]) if x.get("k") == "MethodCall" and x["method"] == "push" and (x["recv"].get("ty") or "").replace("&mut ", "") == "std::vec::Vec<game::Player>"]
+            flow_ok = False
+            if len(pushes) == 1 and any(x is pushes[0] for x in tir.walk(loop["body"])):
+                parg = strip(pushes[0]["args"][0])
+                for x in tir.walk(loop["body"]):
+                    conds = []
+                    if x.get("k") == "If" and x["cond"].get("k") == "LetCond" and not x.get("else"):
+                        conds.append((x["cond"]["pat"], x["cond"]["init"], x["then"]))
+                    if x.get("k") == "Match" and len(x["arms"]) == 2:
+                        for arm in x["arms"]:
+                            conds.append((arm["pat"], x["scrut"], arm["body"]))
+                    for p, init, body in conds:
+                        if p.get("k") == "TupleStruct" and (p.get("path") or "").endswith("::Some") and len(p.get("pats", [])) == 1 and p["pats"][0].get("k") == "Bind" \
+                                and parg.get("k") == "Path" and parg.get("id") == p["pats"][0].get("id") and any(z is pushes[0] for z in tir.walk(body)):
+                            src = strip(init)
+                            if src.get("k") == "Path" and src.get("res") == "local":
+                                src = strip(benv.resolve(src) or src)
+                            flow_ok = src.get("k") == "Try" and strip(src["e"]) is calls[0]
+            vec_new = False
+            if pushes:
+                vid = strip(pushes[0]["recv"]).get("id")
+                for x in tir.walk(b["tir"]["value"]):
+                    if x.get("k") == "Let" and x["pat"].get("k") == "Bind" and x["pat"].get("id") == vid:
+                        i = strip(x.get("init") or {})
+                        vec_new = i.get("k") == "Call" and (i.get("path") or "").endswith(("Vec::new", "Vec::<T>::new", "Vec::with_capacity", "Vec::<T>::with_capacity")) or "Vec" in (i.get("path") or "") and (i.get("path") or "").endswith(("::new", "::with_capacity"))
+            ok = port_ok and arrays_ok and teams_ok and tried and rng == (0, 4) and flow_ok and vec_new
+            why = "loop form: port_ok=%s arrays_ok=%s teams_ok=%s propagated=%s range=%s some-pushed=%s fresh-vec=%s" % (port_ok, arrays_ok, teams_ok, tried, rng, flow_ok, vec_new)
         if closure is not None and len(closure["params"]) == 1:
             nname = closure["params"][0].get("name")
             method, recv = safety.closure_application(b["tir"]["value"], closure)
@@ -472,6 +527,58 @@ def end_rule(F, rep, spec):
     rep.ob("end.methods", em is not None and sorted(v["discr"] for v in em["variants"]) == [0, 1, 2, 3, 7], "game::EndMethod", "discriminants", "EndMethod must be {0,1,2,3,7}")
 
 
+def whole_payload_rule(F, rep):
+    """optional fields are present exactly when the *event's* block is long enough, and the block is retained unchanged:
+    game_start / game_end must be handed the whole payload buffer (the `vec![0; size]` filled by read_exact), not a
+    sub-slice of it cut to a length computed elsewhere (e.g. from the version)"""
+    n = 0
+    for b in F.fn_bodies():
+        root = b["tir"]["value"]
+        calls = [c for c in tir.walk(root) if c.get("k") == "Call" and (tir.callee(c) or declared(c) or "") in (GS, GE)]
+        if not calls:
+            continue
+        env = tir.LetEnv(root)
+        for c in calls:
+            n += 1
+            a = strip(c["args"][0]) if c.get("args") else {}
+            for _ in range(6):
+                while a.get("k") in ("AddrOf",) or (a.get("k") == "Unary" and a.get("op") == "Deref"):
+                    a = strip(a["e"])
+                if a.get("k") == "Path" and a.get("res") == "local" and (a.get("ty") or "") == "std::vec::Vec<u8>":
+                    break
+                r = env.resolve(a, peel=True) if a.get("k") == "Path" and a.get("res") == "local" else a
+                if r is a or r is None:
+                    break
+                a = strip(r)
+            is_buf = a.get("k") == "Path" and a.get("res") == "local" and (a.get("ty") or "").replace("&mut ", "").replace("&", "") in ("std::vec::Vec<u8>", "[u8]")
+            init = None
+            if is_buf:
+                lets = [x for x in tir.walk(root) if x.get("k") == "Let" and x["pat"].get("k") == "Bind" and x["pat"].get("id") == a.get("id")]
+                init = lets[0].get("init") if lets else None
+            whole = is_buf and (init is None or tir.in_macro(init, "vec") or (init.get("ty") or "") == "std::vec::Vec<u8>")
+            rep.ob("payload.whole", bool(whole), b["path"], tir.short(tir.callee(c) or declared(c)),
+                   "%s must be given the whole event payload buffer; it is given %s (a cut slice changes which optional fields are seen and what the retained raw block holds)" % (
+                       tir.short(tir.callee(c) or declared(c)), tir.pretty(c["args"][0])[:80] if c.get("args") else "nothing"), tir.sp(c))
+    rep.floor("game_start / game_end call sites in the reader", n, 2)
+
+
+def immutable_values_rule(F, rep):
+    """a decoded Start / End / Player value is what game_start / player / game_end built from the block: no code anywhere takes
+    a mutable borrow of, or assigns to, a field of those structs afterwards (a post-decode fix-up would make a field differ
+    from its spec-offset bytes while every decoder still looks right)"""
+    import re
+    rx = re.compile(r"^(&(mut )?)*game::(Start|End|Player|PlayerEnd|Netplay|Match|Scene|Ucf|Bytes)$")
+    n = 0
+    for b in F.fn_bodies():
+        for x, mut in tir.mutable_projections(b["tir"]["value"], rx):
+            n += 1
+            rep.ob("values.immutable", not mut, b["path"], "%s.%s" % ((x["base"].get("ty") or "").rsplit("::", 1)[-1], x.get("name")),
+                   "%s mutates `%s` of %s after it was decoded" % (b["path"], x.get("name"), x["base"].get("ty")), tir.sp(x))
+    rep.floor("projections of decoded Start/End/Player fields", n, 40)
+    probe = {"k": "Assign", "l": {"k": "Field", "name": "stocks", "ty": "u8", "base": {"k": "Path", "res": "local", "name": "p", "ty": "&mut game::Player"}}, "r": {"k": "Lit", "lit": "int", "v": 0}}
+    rep.control("mutable-projection scan sees an assignment to Player.stocks", [m for _, m in tir.mutable_projections(probe, rx)] == [True])
+
+
 def json_rule(F, rep):
     """omission of absent optionals and of the raw bytes in the JSON rendering, from the derived Serialize bodies"""
     want_skip = {"game::Start": ["is_pal", "is_frozen_ps", "scene", "language", "match"], "game::End": ["lras_initiator", "players"],
@@ -529,6 +636,8 @@ def run(F, rep, tier):
     end_rule(F, rep, spec)
     strings_rule(F, rep)
     no_extra_refusal_rule(F, rep)
+    whole_payload_rule(F, rep)
+    immutable_values_rule(F, rep)
     # name tag / netplay name / connect code: the bytes before the first NUL, strictly decoded (shared with C19)
     from props import C19
     C19.decode_rule(F, rep)
